@@ -8,19 +8,32 @@ HARNESSES = [dict(name="ppp", pkg="./pkg/ppp/", test="TestVerifC05", timeout=900
              dict(name="ppp_race", pkg="./pkg/ppp/", test="TestVerifC05", timeout=900, files=_FILES, race=True),
              # the caller: Dispatcher.HandleFrame with a real LCP/IPCP/IPv6CP behind it (package pppdisp)
              dict(name="disp", pkg="./internal/ppp/", test="TestVerifC05D", timeout=900,
-                  files=[("internal/ppp/zz_verif_c05_disp_test.go", "harness/C05/zz_verif_c05_disp_test.go")])]
+                  files=[("internal/ppp/zz_verif_c05_disp_test.go", "harness/C05/zz_verif_c05_disp_test.go")]),
+             # the session layer: a real internal/pppoe SessionState (package pppoe)
+             dict(name="sess", pkg="./internal/pppoe/", test="TestVerifC05S", timeout=900,
+                  files=[("internal/pppoe/zz_verif_c05_sess_test.go", "harness/C05/zz_verif_c05_sess_test.go")])]
 
 
 def route(case):
     if (case.split() or [""])[0] == "disp":
         return "disp"
+    if (case.split() or [""])[0] == "sess":
+        return "sess"
     return "ppp_race" if case.startswith("conc ") else "ppp"
 
 
 
 # Every finding of this property is fixed in /repo (d6fc4b1, 488e192, fe05ccf, bbcb995): the model has one variant,
 # what /repo HEAD does; a regression to any of the old defects is a VIOLATION.
-VARIANTS = ["repaired"]
+# echo_unfixed: the session layer answers an LCP Echo-Request only in the phases Network/Open instead of whenever
+# LCP is Opened (finding lcp-echo-reply-phase, fixes/C05_lcp_echo_reply_in_opened.patch); differs in kind sess only
+VARIANTS = ["repaired", "echo_unfixed"]
+
+
+def signature(case, impl, models):
+    if (case.split() or [""])[0] == "sess" and models.get("echo_unfixed") == impl:
+        return "lcp-echo-reply-phase"
+    return None
 # Which Identifiers the originated packets carry is a choice the property leaves free: the model driver reads them
 # (start value id0 and the Identifier of every scr/str/scj) from the implementation's line, runs with that policy and
 # checks it is admissible (INADMISSIBLE:<why> otherwise).
@@ -239,6 +252,53 @@ def gen_disp(rng, quick):
     return cases
 
 
+# ---- the session layer (kind sess) ----
+SREQ = {"L": {"g": "010405d4050609090909", "n": "01040020", "r": "0702"},
+        "I": {"g": "03060a370002", "n": "03060a370009", "r": "0206002d0f01"},
+        "V": {"g": "010a0200000000000007", "n": "010a0000000000000000", "r": "0202"}}
+
+
+def sframe(t, code, idv, cls="g", data="-"):
+    return "F%s.%d.%s.%s.%s" % (DPROTO[t], code, idv, cls, data or "-")
+
+
+def sreq(t, cls="g", idv="7"):
+    return sframe(t, 1, idv, cls, SREQ[t][cls])
+
+
+def gen_sess(rng, quick):
+    lcp_up = ["UP", sreq("L"), sframe("L", 2, "c")]
+    ncp_up = lambda t: [sreq(t), sframe(t, 2, "c")]
+    prefixes = [["UP"], ["UP", sreq("L")], lcp_up, lcp_up + ["AUTH+"], lcp_up + ["AUTH+"] + ncp_up("I"),
+                lcp_up + ["AUTH+"] + ncp_up("V"), lcp_up + ["AUTH+"] + ncp_up("I") + ncp_up("V"),
+                lcp_up + ["AUTH-"], lcp_up + ["AUTH+"] + ncp_up("I") + [sreq("L")],
+                lcp_up + ["AUTH+"] + ncp_up("I") + [sframe("L", 5, "9")], lcp_up + ["AUTH+", "CLOSE"]]
+    events = (["AUTH+", "AUTH-", "TL", "TI", "TV", "CLOSE", "TERM"] +
+              [sreq(t, c) for t in "LIV" for c in "gnr"] +
+              [sframe(t, k, i) for t in "LIV" for k in (2, 3, 4) for i in ("c", "s")] +
+              [sframe(t, 5, "9") for t in "LIV"] + [sframe(t, 6, "9") for t in "LIV"] +
+              [sframe(t, 7, "9", "g", "01010004") for t in "LIV"] +
+              [sframe("L", 9, "5", "g", d) for d in ("", "0102", "01020304", "01020304aabb")] +
+              [sframe("L", 10, "5", "g", "01020304"), sframe("L", 11, "5", "g", ""), sframe("L", 12, "5", "g", "aa"),
+               sframe("L", 8, "5", "g", "8021"), sframe("L", 8, "5", "g", "8057"), sframe("L", 8, "5", "g", "c021"),
+               sframe("L", 8, "5", "g", "80"), sframe("I", 9, "5", "g", "01020304"), "F1234.1.1.g.aabb"])
+    echo = sframe("L", 9, "6", "g", "05060708cc")
+    cases = []
+    for pool in ("1", "0"):
+        for p in prefixes:
+            for e in events:
+                cases.append(" ".join(["sess", pool] + p + [e, echo, "TL"]))
+            if quick and pool == "0":
+                continue
+            for e1 in events[::2]:
+                for e2 in events[1::3]:
+                    cases.append(" ".join(["sess", pool] + p + [e1, e2, echo]))
+    for _ in range(300 if quick else 3000):
+        w = ["UP"] + rng.choices(events + lcp_up[1:] * 3 + ["AUTH+"] * 3 + ncp_up("I") * 2 + ncp_up("V") * 2 + [echo] * 2, k=30)
+        cases.append(" ".join(["sess", rng.choice("10")] + w))
+    return cases
+
+
 def gen_cases(rng, tier, budget):
     quick = tier != "thorough"
     cases = []
@@ -311,6 +371,7 @@ def gen_cases(rng, tier, budget):
             for b in B_SET:
                 cases.append(mk("conc", ("2", "1"), p + ["/", "s", a, b]))
     cases += gen_disp(rng, quick)
+    cases += gen_sess(rng, quick)
     cases.append(mk("fsm", ("d", "d"), ["O", "U"] + ["I12.9.g.2"] * 300 + [RCA, "I2.s.g.0", RCRP, RCA]))
     cases.append(mk("fsm", ("d", "d"), ["O", "U"] + ["I3.c.g.0"] * 260 + [RCRP, RCA]))
     return cases
@@ -433,6 +494,16 @@ def classify_disp(case, impl, model):
 def classify(case, impl, model):
     if (case.split() or [""])[0] == "disp":
         return classify_disp(case, impl, model)
+    if (case.split() or [""])[0] == "sess":
+        ops = case.split()[2:]
+        a, b = impl.split(), model.split()
+        for i in range(max(len(a), len(b))):
+            x = a[i] if i < len(a) else None
+            y = b[i] if i < len(b) else None
+            if x != y:
+                return "P", ("session layer: op %d %s: implementation -> %s, model -> %s (phase/lcp/ipcp/ipv6cp/flags:events)"
+                             % (i, ops[i] if i < len(ops) else "?", x, y))
+        return "G", "lines differ textually only"
     si, sm = steps(impl), steps(model)
     if si is None or sm is None:
         return "P", "implementation output not a step list: %r" % impl[:200]
@@ -467,6 +538,8 @@ def classify(case, impl, model):
 
 
 def nontrivial(case, out):
+    if (case.split() or [""])[0] == "sess":
+        return any(t.split(":")[1] != "-" for t in out.split() if t.count(":") == 1)
     if (case.split() or [""])[0] == "disp":
         return any(t.split(":")[1] != "-" for t in out.split() if t.count(":") == 2)
     s = steps(out)
@@ -475,6 +548,14 @@ def nontrivial(case, out):
 
 def shrink(case):
     t = case.split()
+    if t[0] == "sess":
+        ops = t[2:]
+        for k in (len(ops) // 2, len(ops) - 1):
+            if 1 < k < len(ops):
+                yield " ".join(t[:2] + ops[:k])
+        for i in range(len(ops) - 1, 0, -1):
+            yield " ".join(t[:2] + ops[:i] + ops[i + 1:])
+        return
     if t[0] == "disp":
         ops = t[1:]
         for k in (len(ops) // 2, len(ops) - 1):
@@ -509,6 +590,21 @@ def distribution(cases, impl):
     for c, o in zip(cases, impl):
         t = c.split()
         d["kinds"][t[0]] = d["kinds"].get(t[0], 0) + 1
+        if t[0] == "sess":
+            ds = d.setdefault("session_layer", {"ops": 0, "phases_seen": {}, "opened": 0, "echo_replies": 0,
+                                                "link_ended": 0, "chap": 0})
+            for tok in (o or "").split():
+                if tok.count(":") != 1:
+                    continue
+                ds["ops"] += 1
+                stt, ev = tok.split(":")
+                phn = stt.split("/")[0]
+                ds["phases_seen"][phn] = ds["phases_seen"].get(phn, 0) + 1
+                ds["opened"] += "open" in ev.split(",")
+                ds["echo_replies"] += "echoreply" in ev
+                ds["chap"] += "chap." in ev
+                ds["link_ended"] += stt.endswith("1")
+            continue
         if t[0] == "disp":
             dd = d.setdefault("dispatcher", {"ops": 0, "frames": 0, "to_LCP": 0, "to_IPCP": 0, "to_IPv6CP": 0,
                                              "host_callbacks": 0, "dropped": 0, "err_short": 0, "err_len": 0})
